@@ -388,16 +388,21 @@ def insertAll : List (List Char) → Nat → List (Nat × List Seg) → List Ins
       else if insChk (acc.map (fun q => toks q.2)) (toks segs) false true then ([.conflict], acc)
       else let (r, a) := insertAll ps (i + 1) (acc ++ [(i, segs)]); (.ok :: r, a)
 
+/-- One step of the search for the matching route that `Node::at` reaches first. -/
+def pickStep (segs : List (List Char)) (best : Option (Nat × List Seg)) (r : Nat × List Seg) :
+    Option (Nat × List Seg) :=
+  if segsMatch r.2 segs then
+    match best with
+    | none => some r
+    | some b => if prefer r.2 b.2 then some r else some b
+  else best
+
+def bestRoute (routes : List (Nat × List Seg)) (segs : List (List Char)) : Option (Nat × List Seg) :=
+  routes.foldl (pickStep segs) none
+
 /-- `Router::at`: the matching route that is searched first. -/
 def atRoutes (routes : List (Nat × List Seg)) (path : List Char) : Option Nat :=
-  let segs := splitSlash path
-  let step (best : Option (Nat × List Seg)) (r : Nat × List Seg) : Option (Nat × List Seg) :=
-    if segsMatch r.2 segs then
-      match best with
-      | none => some r
-      | some b => if prefer r.2 b.2 then some r else some b
-    else best
-  (routes.foldl step none).map (·.1)
+  (bestRoute routes (splitSlash path)).map (·.1)
 
 /-- A router holding exactly the given route: does `at(path)` succeed? -/
 def matches1 (pat path : List Char) : Bool :=
